@@ -464,13 +464,13 @@ impl<'a> Gen<'a> {
             if self.rng.chance(3, 4) {
                 steps.push(Step::Settle);
             }
-            // lane traffic after the departure, and the gap. (Two events and a gap of more than the
-            // timeout and a few milliseconds let both tasks vote: the runtime stops and the rest of the
+            // lane traffic after the departure, and the gap. (Two events and a gap of the timeout or more let both tasks vote: the runtime stops and the rest of the
             // conversation talks to nobody. Most conversations should get to their final idle period
             // with the runtime running, so that combination is made rare.)
             let mut evs = *self.rng.pick(&[0, 0, 1, 2, 2, 2, 3]);
             let g = self.gap(t);
-            if evs >= 2 && g > t + 2 && !parked && self.rng.chance(7, 8) {
+            // (the read task's timer starts with the second event, one quiet point after the first)
+            if evs >= 2 && g + evs > t + 1 && !parked && self.rng.chance(7, 8) {
                 evs = self.rng.below(2);
             }
             for _ in 0..evs {
@@ -1293,4 +1293,31 @@ pub fn inactivity_case(idx: u64) -> (Config, Vec<Step>, &'static str) {
         inactivity: true,
     };
     (cfg, s, INACTIVITY_SCENARIOS[scenario])
+}
+
+// ------------------------------------------------------------------------------------------------
+// Minimal witness (run with `--witness 1` only) of the C17 finding
+// `downlink/idle-runtime-never-stopped/value/departed-consumer-never-synced`: A is synced and stops
+// reading (4-byte channel), two lane events block the read task on A; B attaches with SYNC: its
+// registration and the lane's answer to its sync request both wait for the read task, which takes
+// them in either order when A resumes (unbiased select). When the answer goes first B is told
+// `linked` and never `synced` (known C07 finding). B leaves, A leaves, the lane keeps sending events,
+// nothing else happens: on a value lane the read task never notices that B has gone and never votes.
+
+pub const WITNESS_REPEATS: u64 = 64;
+pub const WITNESS_CASES: u64 = 2 * WITNESS_REPEATS;
+
+pub fn inactivity_witness_case(idx: u64) -> (Config, Vec<Step>) {
+    let kind = if idx % 2 == 0 { LaneKind::Value } else { LaneKind::Map };
+    let (mut cfg, mut s, _) = directed_case(idx % 2);
+    debug_assert!(cfg.kind == kind);
+    s.push(Step::DropBoth(1));
+    s.push(Step::Settle);
+    s.push(Step::DropBoth(0));
+    s.push(Step::Settle);
+    cfg.timeout_ms = 20;
+    cfg.faults = true;
+    cfg.inactivity = true;
+    cfg.end = EndKind::FinalIdle;
+    (cfg, s)
 }
